@@ -30,7 +30,9 @@
 #include <stdint.h>
 #include <stdlib.h>
 #include <string.h>
+#include <sys/stat.h>
 #include <sys/syscall.h>
+#include <sys/uio.h>
 #include <sys/types.h>
 #include <unistd.h>
 
@@ -317,70 +319,128 @@ static int is_target_file(int fd) {
     return (size_t)n > fdir_len && !strncmp(path, fdir, fdir_len) && path[fdir_len] == '/';
 }
 
+/* A descriptor other than 0 that names the same pipe as fd 0 (the path /dev/stdin, /dev/fd/0 or
+ * /proc/self/fd/0 opened as an input *file*): the R plan applies to it as it does to fd 0, so a
+ * non-regular input file is delivered in pieces too. */
+static int is_stdin_alias(int fd) {
+    if (fd <= 2) return 0;
+    struct stat a, b;
+    if (fstat(0, &a) != 0 || !S_ISFIFO(a.st_mode)) return 0;
+    if (fstat(fd, &b) != 0) return 0;
+    return a.st_dev == b.st_dev && a.st_ino == b.st_ino;
+}
+
+/* which plan governs a read on fd: 'R' (stdin), 'F' (input file in the scratch directory), 0 */
+static char read_plan_for(int fd) {
+    if (!active) return 0;
+    if (fd == 0) return 'R';
+    if (r_i < r_n && is_stdin_alias(fd)) return 'R';
+    if (f_i < f_n && is_target_file(fd)) return 'F';
+    return 0;
+}
+
+static struct step *next_step(char tag, size_t *k_out) {
+    struct step *st = NULL;
+    lock();
+    if (tag == 'R') { if (r_i < r_n) { *k_out = r_i; st = &r_plan[r_i++]; } }
+    else if (tag == 'F') { if (f_i < f_n) { *k_out = f_i; st = &f_plan[f_i++]; } }
+    else { if (w_i < w_n) { *k_out = w_i; st = &w_plan[w_i++]; } }
+    unlock();
+    return st;
+}
+
 ssize_t read(int fd, void *buf, size_t count) {
-    if (active && fd == 0) {
-        lock();
-        size_t k = r_i;
-        struct step *st = k < r_n ? &r_plan[k] : NULL;
-        if (st) r_i++;
-        unlock();
-        if (st) {
-            long ret; int err = 0;
-            if (st->kind == K_CHUNK) {
-                size_t n = count < (size_t)st->n ? count : (size_t)st->n;
-                ret = syscall(SYS_read, fd, buf, n);
-                if (ret < 0) err = errno;
-            } else if (st->kind == K_EINTR) { ret = -1; err = EINTR; }
-            else { ret = -1; err = (int)st->n; }
-            log_io('R', k, fd, count, ret, err);
-            if (ret < 0) errno = err;
-            return ret;
-        }
-    } else if (active && f_i < f_n && is_target_file(fd)) {
-        lock();
-        size_t k = f_i;
-        struct step *st = k < f_n ? &f_plan[k] : NULL;
-        if (st) f_i++;
-        unlock();
-        if (st) {
-            long ret; int err = 0;
-            if (st->kind == K_CHUNK) {
-                size_t n = count < (size_t)st->n ? count : (size_t)st->n;
-                ret = syscall(SYS_read, fd, buf, n);
-                if (ret < 0) err = errno;
-            } else if (st->kind == K_EINTR) { ret = -1; err = EINTR; }
-            else { ret = -1; err = (int)st->n; }
-            log_io('F', k, fd, count, ret, err);
-            if (ret < 0) errno = err;
-            return ret;
-        }
+    char tag = read_plan_for(fd);
+    size_t k = 0;
+    struct step *st = tag ? next_step(tag, &k) : NULL;
+    if (st) {
+        long ret; int err = 0;
+        if (st->kind == K_CHUNK) {
+            size_t n = count < (size_t)st->n ? count : (size_t)st->n;
+            ret = syscall(SYS_read, fd, buf, n);
+            if (ret < 0) err = errno;
+        } else if (st->kind == K_EINTR) { ret = -1; err = EINTR; }
+        else { ret = -1; err = (int)st->n; }
+        log_io(tag, k, fd, count, ret, err);
+        if (ret < 0) errno = err;
+        return ret;
     }
     return syscall(SYS_read, fd, buf, count);
 }
 
+/* vectored I/O obeys the same plans: a Chunk(n) step caps the total over all buffers */
+static int cap_iov(const struct iovec *iov, int iovcnt, size_t cap, struct iovec *out, size_t *total) {
+    int m = 0; size_t left = cap; *total = 0;
+    for (int i = 0; i < iovcnt && i < 64; i++) {
+        *total += iov[i].iov_len;
+        if (left == 0) continue;
+        out[m].iov_base = iov[i].iov_base;
+        out[m].iov_len = iov[i].iov_len < left ? iov[i].iov_len : left;
+        left -= out[m].iov_len;
+        m++;
+    }
+    return m;
+}
+
+ssize_t readv(int fd, const struct iovec *iov, int iovcnt) {
+    char tag = read_plan_for(fd);
+    size_t k = 0;
+    struct step *st = (tag && iovcnt > 0 && iovcnt <= 64) ? next_step(tag, &k) : NULL;
+    if (st) {
+        long ret; int err = 0; size_t total = 0;
+        struct iovec lim[64];
+        if (st->kind == K_CHUNK) {
+            int m = cap_iov(iov, iovcnt, (size_t)st->n, lim, &total);
+            ret = syscall(SYS_readv, fd, lim, m);
+            if (ret < 0) err = errno;
+        } else if (st->kind == K_EINTR) { ret = -1; err = EINTR; }
+        else { ret = -1; err = (int)st->n; }
+        log_io(tag, k, fd, total, ret, err);
+        if (ret < 0) errno = err;
+        return ret;
+    }
+    return syscall(SYS_readv, fd, iov, iovcnt);
+}
+
 ssize_t write(int fd, const void *buf, size_t count) {
-    if (active && fd == 1) {
-        lock();
-        size_t k = w_i;
-        struct step *st = k < w_n ? &w_plan[k] : NULL;
-        if (st) w_i++;
-        unlock();
-        if (st) {
-            long ret; int err = 0;
-            if (st->kind == K_CHUNK) {
-                size_t n = count < (size_t)st->n ? count : (size_t)st->n;
-                ret = syscall(SYS_write, fd, buf, n);
-                if (ret < 0) err = errno;
-            } else if (st->kind == K_EINTR) { ret = -1; err = EINTR; }
-            else { ret = -1; err = (int)st->n; }
-            log_io('W', k, fd, count, ret, err);
-            if (ret < 0) errno = err;
-            return ret;
-        }
+    size_t k = 0;
+    struct step *st = (active && fd == 1) ? next_step('W', &k) : NULL;
+    if (st) {
+        long ret; int err = 0;
+        if (st->kind == K_CHUNK) {
+            size_t n = count < (size_t)st->n ? count : (size_t)st->n;
+            ret = syscall(SYS_write, fd, buf, n);
+            if (ret < 0) err = errno;
+        } else if (st->kind == K_EINTR) { ret = -1; err = EINTR; }
+        else { ret = -1; err = (int)st->n; }
+        log_io('W', k, fd, count, ret, err);
+        if (ret < 0) errno = err;
+        return ret;
     }
     long wr = syscall(SYS_write, fd, buf, count);
     /* engine E3: what a thread printed is visible before whatever it does next (exit, send):
      * the other threads get a turn right here */
+    if (active && fd == 1 && wr > 0) e3_after_output();
+    return wr;
+}
+
+ssize_t writev(int fd, const struct iovec *iov, int iovcnt) {
+    size_t k = 0;
+    struct step *st = (active && fd == 1 && iovcnt > 0 && iovcnt <= 64) ? next_step('W', &k) : NULL;
+    if (st) {
+        long ret; int err = 0; size_t total = 0;
+        struct iovec lim[64];
+        if (st->kind == K_CHUNK) {
+            int m = cap_iov(iov, iovcnt, (size_t)st->n, lim, &total);
+            ret = syscall(SYS_writev, fd, lim, m);
+            if (ret < 0) err = errno;
+        } else if (st->kind == K_EINTR) { ret = -1; err = EINTR; }
+        else { ret = -1; err = (int)st->n; }
+        log_io('W', k, fd, total, ret, err);
+        if (ret < 0) errno = err;
+        return ret;
+    }
+    long wr = syscall(SYS_writev, fd, iov, iovcnt);
     if (active && fd == 1 && wr > 0) e3_after_output();
     return wr;
 }
